@@ -178,7 +178,8 @@ class QuicConnectionProtocol(asyncio.DatagramProtocol):
             if reader is None:
                 reader, writer = self._create_stream(event.stream_id)
                 self._stream_handler(reader, writer)
-            reader.feed_data(event.data)
+            if event.data:
+                reader.feed_data(event.data)
             if event.end_stream:
                 reader.feed_eof()
 
